@@ -562,6 +562,10 @@ JoinUnionMenu == JoinMenu \cup LimitJoinMenu
 LinesUnion == {KV(A, IntV(1)), KV(A, IntV(2)), KV(B, IntV(1)), KV(B, IntV(3)), KV(A, IntV(-1)), KV(B, IntV(31)), KV(A, IntV(32)), KV(Null, IntV(2)), KV(A, Null), KV(Null, Null), KV(AB, IntV(10)),
                KV(B, IntV(0)), Garbage, Empty, Near}
 
+\* medium scale (configurations gen-wide): 40-64 random lines over 40 values x 3 keys -- more distinct rows, groups and values per group than the small fixed-size
+\* shortcuts a program may take (8, 16, 32 entries), with recurrences far apart
+LinesWide == {KV(k, IntV(i)) : k \in {A, B}, i \in 1..40} \cup {KV(AB, IntV(i)) : i \in {1, 2, 3}} \cup {KV(Null, IntV(7)), KV(A, Null), Garbage}
+
 \* ---- scale (configuration scale): one input of 1 400 lines over 1 301 distinct keys in scrambled order (about a hundred of them recur far apart), values 0..6 --
 \* more groups, distinct rows and distinct values than any in-memory shortcut of the code is sized for (tens, hundreds, 1 024 ...); the statements keep the
 \* first rows of such a result (LIMIT with and without DISTINCT / HAVING), count and deduplicate them
